@@ -1,4 +1,6 @@
 import VaxisModel.Driver.Common
+import VaxisModel.Model.SurfExec
+import VaxisModel.Gen.SurfaceBodies
 import VaxisModel.Model.Layout
 import VaxisModel.Spec.Surface
 
@@ -49,11 +51,34 @@ def changedIdx (buf : List Cell) : List Nat :=
 
 def idxStr (l : List Nat) : String := if l.isEmpty then "-" else ",".intercalate (l.map toString)
 
-def wsModel (W H col row : Nat) : String :=
+def wsHand (W H col row : Nat) : String :=
   let s := newSurface srcArith (UInt16.ofNat W) (UInt16.ofNat H)
   match writeCell srcArith s (UInt16.ofNat col) (UInt16.ofNat row) marker with
   | .error _ => "panic"
   | .ok s' => s!"{s'.buf.length};{idxStr (changedIdx s'.buf)}"
+
+/-- Round 4: the same case through the statement interpreter on the REGENERATED bodies of `NewSurface` and `WriteCell`
+(`Gen/SurfaceBodies`, `Model/SurfExec`): what the executed source computes. -/
+def wsExecuted (W H col row : Nat) : String :=
+  open VaxisModel.Model.SurfExec in
+  match run noRo Gen.SurfaceBodies.newSurface Gen.SurfaceBodies.newSurfaceParams [.u16 (UInt16.ofNat W), .u16 (UInt16.ofNat H), .wid 0] (Screen.resize 0 0) with
+  | .ok (.surf s, _, _) =>
+    (match run noRo Gen.SurfaceBodies.writeCell Gen.SurfaceBodies.writeCellParams
+        [.surf s, .u16 (UInt16.ofNat col), .u16 (UInt16.ofNat row), .cell marker] (Screen.resize 0 0) with
+     | .ok (_, some (.surf s'), _) => s!"{s'.buf.length};{idxStr (changedIdx s'.buf)}"
+     | .error (.panic _) => "panic"
+     | .error (.stuck why) => s!"stuck:{why}"
+     | _ => "stuck:result")
+  | .error (.panic _) => "panic"
+  | .error (.stuck why) => s!"stuck:{why}"
+  | _ => "stuck:result"
+
+/-- The hand-written model and the executed bodies must agree (`Props.C14Body.newSurface_body_eq_model`,
+`writeCell_body_eq_model` prove it for the unchanged source); a difference is shown as such and compared with the real code. -/
+def wsModel (W H col row : Nat) : String :=
+  let m := wsHand W H col row
+  let e := wsExecuted W H col row
+  if m = e then m else s!"model={m}|executed-body={e}"
 
 def wsVerdict (W H col row : Nat) (impl : String) : String :=
   if impl = "panic" then
@@ -202,11 +227,68 @@ def parseNode? (s : String) : Option Node :=
              w := ← w.toNat?, h := ← h.toNat?, len := ← len.toNat?, rest := ":".intercalate rest }
   | _ => none
 
-def drawModel (sizesOnly : Bool) (c : Ctx) (w : Widget) : String :=
+def drawHand (sizesOnly : Bool) (c : Ctx) (w : Widget) : String :=
   match draw w c with
   | .error .explicit => "panic:explicit"
   | .error _ => "panic:runtime"
   | .ok s => if sizesOnly then dumpSizes s else dumpSurface s
+
+section executed
+open VaxisModel.Model.SurfExec
+
+def execResult (sizesOnly : Bool) (r : Except Err (Val × Option Val × Screen)) : String :=
+  match r with
+  | .ok (.tup (.surf s) _, _, _) => if sizesOnly then dumpSizes s else dumpSurface s
+  | .error (.panic .explicit) => "panic:explicit"
+  | .error (.panic _) => "panic:runtime"
+  | .error (.stuck why) => s!"stuck:{why}"
+  | _ => "stuck:result"
+
+def sizeVal (r : Except Err (Val × Option Val × Screen)) : Except Err Val :=
+  match r with
+  | .ok (v, _, _) => .ok v
+  | .error e => .error e
+
+/-- Round 4: the ROOT widget's Draw through the statement interpreter on the regenerated bodies (`Gen/SurfaceBodies`):
+`Center.Draw` (the child's Draw being the model), soft-wrap `RichText` / `Text` (`drawSoftwrap` calling the executed
+`findContainerSize`).  `none` = this widget's body is not executed (hard wrap, TextField, Button, Dynamic). -/
+def drawExecuted (sizesOnly : Bool) (c : Ctx) (w : Widget) : Option String :=
+  let scr0 := Screen.resize 0 0
+  match w with
+  | .center child =>
+    let R : Ro := { noRo with fields := fun f => if f = "Child" then some (.wid 1) else none, childDraw := fun c' => draw child c' }
+    some (execResult sizesOnly (run R Gen.SurfaceBodies.centerDraw Gen.SurfaceBodies.centerDrawParams [.wid 0, .ctx c] scr0))
+  | .rich false lines =>
+    let flds : String → Option Val := fun f => if f = "Softwrap" then some (.bool true) else none
+    let R0 : Ro := { noRo with fields := flds, soft := lines, wrapW := c.maxW }
+    let selfFn : String → List Val → Option (Except Err Val) := fun f args =>
+      if f = "meth:cells" then some (.ok (.cells lines.flatten))
+      else if f = "meth:findContainerSize" then
+        some (sizeVal (run R0 Gen.SurfaceBodies.richFindContainerSize Gen.SurfaceBodies.richFindContainerSizeParams args scr0))
+      else none
+    let R : Ro := { R0 with self := selfFn }
+    some (execResult sizesOnly (run R Gen.SurfaceBodies.richDrawSoftwrap Gen.SurfaceBodies.richDrawSoftwrapParams [.wid 0, .ctx c] scr0))
+  | .text false st lines =>
+    let flds : String → Option Val := fun f =>
+      if f = "Softwrap" then some (.bool true) else if f = "Style" then some (.sty st) else if f = "Content" then some .text else none
+    let R0 : Ro := { noRo with fields := flds, soft := lines, wrapW := c.maxW }
+    let selfFn : String → List Val → Option (Except Err Val) := fun f args =>
+      if f = "meth:findContainerSize" then
+        some (sizeVal (run R0 Gen.SurfaceBodies.textFindContainerSize Gen.SurfaceBodies.textFindContainerSizeParams args scr0))
+      else none
+    let R : Ro := { R0 with self := selfFn }
+    some (execResult sizesOnly (run R Gen.SurfaceBodies.textDrawSoftwrap Gen.SurfaceBodies.textDrawSoftwrapParams [.wid 0, .ctx c] scr0))
+  | _ => none
+
+end executed
+
+/-- The hand-written model, and — where the root widget's body is executed — the executed source; they agree on the
+unchanged tree (`Props.C14Body`), a difference is shown as such and compared with the real code. -/
+def drawModel (sizesOnly : Bool) (c : Ctx) (w : Widget) : String :=
+  let m := drawHand sizesOnly c w
+  match drawExecuted sizesOnly c w with
+  | some e => if e = m then m else s!"model={m}|executed-body={e}"
+  | none => m
 
 /-- Parent of node `i` in a pre-order list with depths: the nearest earlier node of depth-1. -/
 def parentIdx (nodes : List Node) (i : Nat) : Option Nat :=
